@@ -246,10 +246,10 @@ pub fn run_c16(ctx: &Ctx, rep: &mut Report) {
     }
     // (a3) long values (longer than any internal buffer a writer might use)
     {
-        let lens = [41usize, 127, 128, 129, 255, 256, 257, 1000];
+        let lens = [41usize, 127, 128, 129, 255, 256, 257, 1000, 1023, 1024, 1025, 2047, 2048, 2049, 4095, 4096, 4097, 8192, 10000, 65535, 65536, 65537, 100000];
         let radices = [lens.len() as u64, 3, 2];
         let n = product(&radices);
-        ctx.family(rep, "a3-long-values", "values of 41..1000 characters {plain, with a quote/backslash every 7th character, multi-byte} x {attr, attr_quoted}", n, true, |i, rep| {
+        ctx.family(rep, "a3-long-values", "values of 41..100000 characters (around powers of two) {plain, with a quote/backslash every 7th character, multi-byte} x {attr, attr_quoted}", n, true, |i, rep| {
             let d = decode(i, &radices);
             let len = lens[d[0] as usize];
             let s: String = (0..len)
@@ -264,6 +264,40 @@ pub fn run_c16(ctx: &Ctx, rep: &mut Report) {
             let doc: Doc = vec![Link { target: "/long".into(), attrs: vec![("title".to_string(), v)] }, Link { target: "/z".into(), attrs: vec![] }];
             c16_case("a3-long-values", i, n, &doc, false, ctx, rep);
         });
+    }
+    // (a4) every Unicode scalar value, alone and at the start / end / middle of a value
+    {
+        let radices = [0x110000u64, 4, 2];
+        let n = product(&radices);
+        ctx.family(
+            rep,
+            "a4-every-scalar-value",
+            "every Unicode scalar value c (U+0000..U+10FFFF without surrogates) as the value {c, c+\"a\", \"a\"+c, \"a\"+c+\"a\"} x {attr, attr_quoted}, followed by a second attribute and a second link",
+            n,
+            true,
+            |i, rep| {
+                let d = decode(i, &radices);
+                let c = match char::from_u32(d[0] as u32) {
+                    Some(c) => c,
+                    None => {
+                        rep.count("skipped-surrogate");
+                        return;
+                    }
+                };
+                let s: String = match d[1] {
+                    0 => c.to_string(),
+                    1 => format!("{}a", c),
+                    2 => format!("a{}", c),
+                    _ => format!("a{}a", c),
+                };
+                let v = if d[2] == 0 { Val::Attr(s) } else { Val::Quoted(s) };
+                let doc: Doc = vec![
+                    Link { target: "/x".into(), attrs: vec![("title".to_string(), v), ("if".to_string(), Val::Attr("s".into()))] },
+                    Link { target: "/y".into(), attrs: vec![] },
+                ];
+                c16_case("a4-every-scalar-value", i, n, &doc, false, ctx, rep);
+            },
+        );
     }
     // (b1) one-link documents: target x <= 2 (3) attributes over 26 choices
     {
@@ -519,6 +553,39 @@ pub fn run_c17(ctx: &Ctx, rep: &mut Report) {
             },
         );
     }
+    // every Unicode scalar value in every structural position
+    {
+        let templates: [&str; 14] = ["@", "<@>", "<a>@", "<a>;@", "<a>;@=1", "<a>;k=@", "<a>;k=@x", "<a>;k=x@", "<a>;k=\"@\"", "<a>;k=\"\\@\"", "<a>;k=\"@", "<a>;k=\"x\"@", "<a>@,<b>", "<a>;k=v@;j=w,@<b>"];
+        let radices = [0x110000u64, templates.len() as u64];
+        let n = product(&radices);
+        ctx.family(
+            rep,
+            "every-scalar-value-in-context",
+            &format!("every Unicode scalar value substituted for @ in each of {:?}", templates),
+            n,
+            true,
+            |i, rep| {
+                let d = decode(i, &radices);
+                let c = match char::from_u32(d[0] as u32) {
+                    Some(c) => c,
+                    None => {
+                        rep.count("skipped-surrogate");
+                        return;
+                    }
+                };
+                let mut buf = [0u8; 4];
+                let s = templates[d[1] as usize].replace('@', c.encode_utf8(&mut buf));
+                match guard(|| c17_walk(&s)) {
+                    Err(pn) => rep.violation(viol("every-scalar-value-in-context", i, format!("C17/panic@{}", pn.site()), pn.message, Json::obj().set("input", s.as_str()))),
+                    Ok(Err((sig, what))) => rep.violation(viol("every-scalar-value-in-context", i, sig, what, Json::obj().set("input", s.as_str()))),
+                    Ok(Ok((links, attrs, quoted, err))) => {
+                        rep.count(if err { "ends-with-parse-error" } else { "parsed-to-the-end" });
+                        rep.bucket(&("scalar", d[1], links.min(4), attrs.min(4), quoted.min(3), err));
+                    }
+                }
+            },
+        );
+    }
     // Unquote::new directly
     {
         let syms = ["\"", "\\", "a", "é", " ", ","];
@@ -698,9 +765,37 @@ fn c18_docs(thorough: bool) -> Vec<Doc> {
 
 pub fn run_c18(ctx: &Ctx, rep: &mut Report) {
     let docs = c18_docs(true);
+    c18_family(ctx, rep, "fault-positions", &docs, true);
+    // very long values (a writer that batches its output into a scratch buffer flushes in the middle of a value):
+    // every single fault position, failing once or persistently; no pairs
+    let mut long_docs: Vec<Doc> = Vec::new();
+    let lens: &[usize] = if ctx.thorough() { &[1023, 1024, 1025, 2047, 2048, 2049, 4095, 4096, 4097, 8192, 10000, 20000] } else { &[1024, 2048, 2049, 4097] };
+    for len in lens {
+        for style in 0..2 {
+            let long: String = (0..*len)
+                .map(|k| match (style, k) {
+                    (0, k) if k % 50 == 49 => '"',
+                    (0, k) if k % 64 == 63 => '\\',
+                    (1, k) if k % 3 == 0 => 'é',
+                    (1, k) if k % 5 == 0 => '😁',
+                    (_, k) => (b'a' + (k % 26) as u8) as char,
+                })
+                .collect();
+            long_docs.push(vec![
+                Link { target: "/a".into(), attrs: vec![("title".into(), Val::Quoted(long.clone())), ("ct".into(), Val::U16(40))] },
+                Link { target: "/b".into(), attrs: vec![("rt".into(), Val::Attr(long.clone()))] },
+            ]);
+        }
+    }
+    c18_family(ctx, rep, "fault-positions-very-long-values", &long_docs, false);
+    rep.assume("the sink fails by returning fmt::Error from write_str (write_char and write_fmt go through it); a failed call writes nothing");
+    rep.assume("'finally reported' = the result of LinkFormatWrite::finish(), the last finish() issued");
+}
+
+fn c18_family(ctx: &Ctx, rep: &mut Report, fam: &'static str, docs: &[Doc], pairs: bool) {
     // fault-free runs: number of sink calls per (doc, newline)
     let mut calls: Vec<usize> = Vec::new();
-    for d in &docs {
+    for d in docs {
         for nl in [false, true] {
             let mut s = Sink::new(Fault::None);
             let _ = write_doc(&mut s, d, nl);
@@ -708,7 +803,6 @@ pub fn run_c18(ctx: &Ctx, rep: &mut Report) {
         }
     }
     // index space: for (doc, nl) with c calls: 1 fault-free + c once + c persistent (+ pairs in thorough)
-    let pairs = true;
     let mut offsets = vec![0u64];
     for c in &calls {
         let c = *c as u64;
@@ -721,7 +815,7 @@ pub fn run_c18(ctx: &Ctx, rep: &mut Report) {
         docs.len(),
         if pairs { ", fail exactly calls k1 < k2" } else { "" }
     );
-    ctx.family(rep, "fault-positions", &desc, n, true, |i, rep| {
+    ctx.family(rep, fam, &desc, n, true, |i, rep| {
         let dn = match offsets.binary_search(&i) {
             Ok(k) => k,
             Err(k) => k - 1,
@@ -759,7 +853,7 @@ pub fn run_c18(ctx: &Ctx, rep: &mut Report) {
             (clean, s, results)
         });
         match r {
-            Err(pn) => rep.violation(viol("fault-positions", i, format!("C18/panic@{}", pn.site()), pn.message, case())),
+            Err(pn) => rep.violation(viol(fam, i, format!("C18/panic@{}", pn.site()), pn.message, case())),
             Ok((clean, s, results)) => {
                 let first_fault = match fault {
                     Fault::None => None,
@@ -771,7 +865,7 @@ pub fn run_c18(ctx: &Ctx, rep: &mut Report) {
                             rep.count("fault-free-complete");
                             rep.bucket(&("clean", doc.len(), nl));
                         } else {
-                            rep.violation(viol("fault-positions", i, "C18/error-without-fault", "a finish() failed although the sink never failed", case()));
+                            rep.violation(viol(fam, i, "C18/error-without-fault", "a finish() failed although the sink never failed", case()));
                         }
                     }
                     Some(k) => {
@@ -780,7 +874,7 @@ pub fn run_c18(ctx: &Ctx, rep: &mut Report) {
                         let final_res = results.last().unwrap();
                         if s.buf != expect {
                             rep.violation(viol(
-                                "fault-positions",
+                                fam,
                                 i,
                                 "C18/text-written-after-failed-write",
                                 format!("sink holds {:?}, the fault-free text of calls 0..{} is {:?}", s.buf, k, expect),
@@ -788,7 +882,7 @@ pub fn run_c18(ctx: &Ctx, rep: &mut Report) {
                             ));
                         } else if final_res.is_ok() {
                             rep.violation(viol(
-                                "fault-positions",
+                                fam,
                                 i,
                                 "C18/failure-not-reported",
                                 format!("sink call {} failed but the writer's final finish() is Ok", k),
@@ -803,11 +897,9 @@ pub fn run_c18(ctx: &Ctx, rep: &mut Report) {
             }
         }
         if ctx.want_sample(i, n) {
-            rep.sample(Json::obj().set("family", "fault-positions").set("index", i).set("case", case()));
+            rep.sample(Json::obj().set("family", fam).set("index", i).set("case", case()));
         }
     });
-    rep.note("documents", docs.len());
-    rep.note("max_sink_calls_per_document", *calls.iter().max().unwrap_or(&0));
-    rep.assume("the sink fails by returning fmt::Error from write_str (write_char and write_fmt go through it); a failed call writes nothing");
-    rep.assume("'finally reported' = the result of LinkFormatWrite::finish(), the last finish() issued");
+    rep.note(&format!("{}_documents", fam), docs.len());
+    rep.note(&format!("{}_max_sink_calls_per_document", fam), *calls.iter().max().unwrap_or(&0));
 }
